@@ -126,6 +126,14 @@ func (g *Gen) gap() int64 {
 
 func (g *Gen) dname() string { return fmt.Sprintf("d%d", g.r.Intn(len(g.w.Dels))) }
 func (g *Gen) vname() string { return fmt.Sprintf("v%d", g.r.Intn(len(g.w.Vals))) }
+
+// allianceVal: in the power family the last validator mostly stays without alliance stake (it still moves native stake)
+func (g *Gen) allianceVal() string {
+	if g.family == "power" && len(g.w.Vals) > 1 && g.r.Intn(10) != 0 {
+		return fmt.Sprintf("v%d", g.r.Intn(len(g.w.Vals)-1))
+	}
+	return g.vname()
+}
 func (g *Gen) aname() string {
 	as := g.w.App.AllianceKeeper.GetAllAssets(g.w.Ctx)
 	if len(as) == 0 || g.r.Intn(40) == 0 {
@@ -178,21 +186,210 @@ type weighted struct {
 }
 
 func (g *Gen) Next() Event {
+	e := g.pop()
+	switch e.Ev {
+	case "BeginBlock":
+		g.inBlock, g.early = true, true
+	case "EndBlock":
+		g.inBlock = false
+	case "Accrue", "AccrueFees":
+	default:
+		g.early = false
+	}
+	return e
+}
+
+func (g *Gen) pop() Event {
 	if len(g.queue) > 0 {
 		e := g.queue[0]
 		g.queue = g.queue[1:]
 		return e
 	}
 	if !g.inBlock {
-		g.inBlock = true
-		g.early = true
 		return Event{Ev: "BeginBlock", Dt: g.gap()}
 	}
-	e := g.next()
-	if e.Ev != "Accrue" && e.Ev != "AccrueFees" {
-		g.early = false
+	// one decision in seven is a multi-step pattern aimed at the interleavings the family is about
+	if !g.early && g.r.Intn(7) == 0 {
+		if evs := g.pattern(); len(evs) > 0 {
+			g.queue = append(g.queue, evs[1:]...)
+			return evs[0]
+		}
 	}
-	return e
+	return g.next()
+}
+
+func endOfBlock() []Event { return []Event{{Ev: "StakingEndBlock"}, {Ev: "EndBlock"}} }
+
+func block(dt int64, evs ...Event) []Event {
+	out := []Event{{Ev: "BeginBlock", Dt: dt}}
+	out = append(out, evs...)
+	return append(out, endOfBlock()...)
+}
+
+func (g *Gen) otherVal(not ...string) string {
+	for i := 0; i < 20; i++ {
+		v := g.vname()
+		ok := true
+		for _, n := range not {
+			if n == v {
+				ok = false
+			}
+		}
+		if ok {
+			return v
+		}
+	}
+	return g.vname()
+}
+
+func frac(b math.Int, num, den int64) string {
+	x := b.MulRaw(num).QuoRaw(den)
+	if !x.IsPositive() {
+		return "1"
+	}
+	return x.String()
+}
+
+// pattern returns a multi-step history built around the current state (events are in-block unless they carry their own
+// block boundaries, in which case the pattern starts by closing the current block).
+func (g *Gen) pattern() []Event {
+	U := g.w.Cfg.Unbonding
+	d, v, a, bal := g.position()
+	hasPos := bal.IsPositive()
+	switch g.family {
+	case "redeleg", "shares", "unbond", "full", "genesis":
+		switch g.r.Intn(5) {
+		case 0: // redelegate, destination slashed, destination partly withdrawn, source slashed (C07 C08)
+			if !hasPos {
+				return nil
+			}
+			dst := g.otherVal(v)
+			return []Event{
+				{Ev: "Redelegate", D: d, Src: v, Dst: dst, A: a, X: g.partOf(bal)},
+				{Ev: "SlashHook", V: dst, F: g.fraction()},
+				{Ev: "Undelegate", D: d, V: dst, A: a, X: frac(bal, int64(1+g.r.Intn(9)), 10)},
+				{Ev: "SlashHook", V: v, F: g.fraction()},
+			}
+		case 1: // several undelegations of one delegator in one block, a slash, then end-blocks around the completion time (C02 C07 C20)
+			var evs []Event
+			for _, p := range g.w.positions(g.w.Ctx) {
+				if g.w.Name(p.d.String()) != d || !p.balOk || !p.bal.IsPositive() || len(evs) >= 5 {
+					continue
+				}
+				vn := g.w.Name(p.v.String())
+				evs = append(evs, Event{Ev: "Undelegate", D: d, V: vn, A: p.a, X: frac(p.bal, 1, int64(2+g.r.Intn(4)))})
+				if g.r.Intn(2) == 0 {
+					evs = append(evs, Event{Ev: "Undelegate", D: d, V: vn, A: p.a, X: frac(p.bal, 1, int64(3+g.r.Intn(5)))})
+				}
+			}
+			if len(evs) == 0 {
+				return nil
+			}
+			evs = append(evs, Event{Ev: "SlashHook", V: v, F: g.fraction()})
+			evs = append(evs, endOfBlock()...)
+			if U > 1 {
+				evs = append(evs, block(U-1)...)
+			}
+			evs = append(evs, block(1, Event{Ev: "SlashHook", V: g.vname(), F: g.fraction()})...)
+			evs = append(evs, block(1)...)
+			return evs
+		case 2: // redelegations packed into one block: repeated A->B, a second denom A->B, fan-in, then maturity (C15 C07 C18)
+			if !hasPos {
+				return nil
+			}
+			dst := g.otherVal(v)
+			evs := []Event{
+				{Ev: "Redelegate", D: d, Src: v, Dst: dst, A: a, X: frac(bal, 1, 4)},
+				{Ev: "Redelegate", D: d, Src: v, Dst: dst, A: a, X: frac(bal, 1, 5)},
+			}
+			for _, p := range g.w.positions(g.w.Ctx) {
+				if g.w.Name(p.d.String()) == d && p.balOk && p.bal.IsPositive() && (p.a != a || g.w.Name(p.v.String()) != v) && g.w.Name(p.v.String()) != dst {
+					evs = append(evs, Event{Ev: "Redelegate", D: d, Src: g.w.Name(p.v.String()), Dst: dst, A: p.a, X: frac(p.bal, 1, 3)})
+				}
+			}
+			evs = append(evs, Event{Ev: "Redelegate", D: d, Src: dst, Dst: g.otherVal(dst), A: a, X: "1"}) // onward hop: must be refused
+			evs = append(evs, endOfBlock()...)
+			if U > 1 {
+				evs = append(evs, block(U-1, Event{Ev: "SlashHook", V: v, F: g.fraction()})...)
+			}
+			evs = append(evs, block(1)...)
+			evs = append(evs, block(1, Event{Ev: "Redelegate", D: d, Src: dst, Dst: g.otherVal(dst), A: a, X: "1"})...)
+			return evs
+		case 3: // full exit and re-entry of an asset (dust and reset paths, C03)
+			if !hasPos {
+				return nil
+			}
+			return []Event{
+				{Ev: "Undelegate", D: d, V: v, A: a, X: bal.String()},
+				{Ev: "Delegate", D: d, V: g.vname(), A: a, X: g.amount()},
+				{Ev: "Delegate", D: g.dname(), V: v, A: a, X: "1"},
+			}
+		default: // slash twice, then stake arrives on the slashed validator and on another one (C06 C04)
+			return []Event{
+				{Ev: "SlashHook", V: v, F: g.fraction()},
+				{Ev: "Delegate", D: g.dname(), V: v, A: a, X: g.amount()},
+				{Ev: "SlashHook", V: v, F: g.fraction()},
+				{Ev: "Delegate", D: g.dname(), V: g.otherVal(v), A: a, X: g.amount()},
+				{Ev: "SlashHook", V: g.otherVal(v), F: g.fraction()},
+			}
+		}
+	case "rewards":
+		switch g.r.Intn(3) {
+		case 0: // a dust position next to a large one: tiny rewards, top-up, rewards again, everybody claims (C12 C13)
+			dd := g.dname()
+			coins := []Amt{{BondDenom, pick(g.r, []string{"7", "1000", "1000000"})}}
+			evs := []Event{{Ev: "Delegate", D: dd, V: v, A: a, X: "1"}, {Ev: "Delegate", D: g.dname(), V: v, A: a, X: "1000000"}}
+			evs = append(evs, endOfBlock()...)
+			evs = append(evs, block(1)...)
+			evs = append(evs, block(1, Event{Ev: "Accrue", V: v, Coins: coins}, Event{Ev: "Claim", D: dd, V: v, A: a}, Event{Ev: "Delegate", D: dd, V: v, A: a, X: "1000000"})...)
+			evs = append(evs, block(1, Event{Ev: "Accrue", V: v, Coins: coins}, Event{Ev: "Claim", D: dd, V: v, A: a}, Event{Ev: "Claim", D: d, V: v, A: a})...)
+			return evs
+		case 1: // rewards accrue, a position is partly withdrawn, then claims twice (C13 C12)
+			if !hasPos {
+				return nil
+			}
+			evs := endOfBlock()
+			evs = append(evs, block(1, Event{Ev: "Accrue", V: v, Coins: []Amt{{BondDenom, "1000000"}}},
+				Event{Ev: "Undelegate", D: d, V: v, A: a, X: frac(bal, 1, 3)}, Event{Ev: "Claim", D: d, V: v, A: a}, Event{Ev: "Claim", D: d, V: v, A: a})...)
+			return evs
+		default: // rewards accrue, then new stake arrives by delegation and by redelegation before anyone claims (C13)
+			if !hasPos {
+				return nil
+			}
+			evs := endOfBlock()
+			nv := g.otherVal(v)
+			evs = append(evs, block(1, Event{Ev: "Accrue", V: nv, Coins: []Amt{{BondDenom, "1000000"}, {ExtraDenom, "999"}}},
+				Event{Ev: "Redelegate", D: d, Src: v, Dst: nv, A: a, X: frac(bal, 1, 2)},
+				Event{Ev: "Delegate", D: g.dname(), V: nv, A: g.aname(), X: g.amount()},
+				Event{Ev: "Claim", D: d, V: nv, A: a})...)
+			return evs
+		}
+	case "power":
+		// quiet blocks: nothing but a validator coming back / native stake moving, then blocks in which nothing happens (C10)
+		evs := endOfBlock()
+		switch g.r.Intn(3) {
+		case 0:
+			evs = append(evs, block(1, Event{Ev: "Unjail", V: g.vname()})...)
+		case 1:
+			evs = append(evs, block(1, Event{Ev: "NativeUndelegate", D: g.dname(), V: g.vname(), X: "all"})...)
+		default:
+			evs = append(evs, block(1, Event{Ev: "RealSlash", V: g.vname(), F: g.fraction(), Jail: true})...)
+		}
+		evs = append(evs, block(1)...)
+		evs = append(evs, block(1)...)
+		return evs
+	case "takerate":
+		// many short blocks in a row (the clock must keep up), then one long gap
+		var evs []Event
+		evs = append(evs, endOfBlock()...)
+		for i := 0; i < 4; i++ {
+			evs = append(evs, block(1)...)
+		}
+		evs = append(evs, block(1, Event{Ev: "Delegate", D: g.dname(), V: g.vname(), A: g.aname(), X: g.amount()})...)
+		evs = append(evs, block(g.w.Cfg.Interval+1)...)
+		return evs
+	}
+	return nil
 }
 
 func (g *Gen) next() Event {
@@ -200,11 +397,10 @@ func (g *Gen) next() Event {
 	endW := 14
 	opts := []weighted{
 		{endW, func() Event {
-			g.inBlock = false
 			g.queue = append(g.queue, Event{Ev: "EndBlock"})
 			return Event{Ev: "StakingEndBlock"}
 		}},
-		{16, func() Event { return Event{Ev: "Delegate", D: g.dname(), V: g.vname(), A: g.aname(), X: g.amount()} }},
+		{16, func() Event { return Event{Ev: "Delegate", D: g.dname(), V: g.allianceVal(), A: g.aname(), X: g.amount()} }},
 		{12, func() Event {
 			d, v, a, b := g.position()
 			return Event{Ev: "Undelegate", D: d, V: v, A: a, X: g.partOf(b)}
@@ -238,6 +434,7 @@ func (g *Gen) next() Event {
 		}
 	case "power":
 		nativeW, realSlashW, slashW, accrueW, govW = 10, 5, 0, 3, 3
+		opts[0].w = 30 // short blocks: many blocks in which only one thing (or nothing) happens
 	case "gov":
 		govW, slashW = 14, 1
 	case "genesis":
@@ -367,6 +564,16 @@ func DefaultCfg(r *rand.Rand, family string, big bool, clean bool) WorldCfg {
 			a.LastChg = a.Start
 		}
 		cfg.Assets = append(cfg.Assets, a)
+	}
+	if family == "takerate" {
+		cfg.Interval = pick(r, []int64{2, 3, 5, 10, 20})
+		if r.Intn(4) == 0 {
+			// only an asset in warm-up carries a take rate: nothing is chargeable until it starts
+			cfg.Assets[0].Take = "0"
+			cfg.Assets[1].Take = pick(r, []string{"0.1", "0.5"})
+			cfg.Assets[1].Start = pick(r, []int64{15, 30, 60})
+			cfg.Assets[1].LastChg = cfg.Assets[1].Start
+		}
 	}
 	if family == "gov" && r.Intn(2) == 0 {
 		cfg.Assets = cfg.Assets[:1]
